@@ -188,6 +188,14 @@ class controller_nonMPI(Controller):
 
         """
 
+        # a step that takes no part in this block is neither its first nor its last step (don't keep the flags of an earlier,
+        # longer block; the empty block at the end of the run leaves the flags of the final block for the post-run hooks)
+        if len(active_slots) > 0:
+            for p in range(len(self.MS)):
+                if p not in active_slots:
+                    self.MS[p].status.first = False
+                    self.MS[p].status.last = False
+
         # loop over active slots (not directly, since we need the previous entry as well)
         for j in range(len(active_slots)):
             # get slot number
